@@ -29,6 +29,7 @@ func c03(c *Ctx) {
 	c03R5(c)
 	c03R6(c)
 	c03R7(c)
+	shared(c, "C18", c18R3)
 }
 
 // R1 ---------------------------------------------------------------------------------------------
